@@ -266,7 +266,10 @@ def float_from_number(number, words, path):
     if isinstance(number, float):
         return number
     if isinstance(number, int):
-        return float(number)
+        try:
+            return float(number)
+        except OverflowError:
+            pass
     raise RuntimeError(
         'Error interpreting %s="%s" as a floating-point expression%s'
         % (path, str_from_words(words), words[0].where_str())
